@@ -153,27 +153,27 @@ type submission struct {
 	name       string
 	pre        bool
 	chain      [][]byte
-	entry      ct6962.SignedEntry // what an honest log signs
-	otherType  ct6962.SignedEntry // the same certificate logged as the other entry type
-	otherChain ct6962.SignedEntry // same entry type, another certificate
+	entry      ct6962.SignedEntry  // what an honest log signs
+	otherType  ct6962.SignedEntry  // the same certificate logged as the other entry type
+	otherChain ct6962.SignedEntry  // same entry type, another certificate
 	otherIssue *ct6962.SignedEntry // precert: right TBS, wrong issuer_key_hash
 }
 
 type world struct {
-	root, ca, preIssuer *pki.Cert
+	root, ca, preIssuer           *pki.Cert
 	subX509, subPre, subPreIssuer *submission // NotAfter 2025-06: shard 1
 	subPreIssuer2                 *submission // ... under a signing certificate whose CT key usage is one of several
 	subPreSameLeaf                *submission // subPre's precertificate submitted under another issuer certificate
-	subX509Old, subPreOld          *submission // NotAfter 2024-06: shard 0
+	subX509Old, subPreOld         *submission // NotAfter 2024-06: shard 0
 
-	entries   []refEntry // honest get-entries range [3,4]: one x509 entry, one precert entry
-	leafHash  [][]byte   // the 7 leaves of the honest tree
-	treeRoot  [32]byte
-	consist   [][]byte // consistency 3 -> 7
-	audit     [][]byte // inclusion of leaf 2 in 7
-	roots     [][]byte
-	sthTime   uint64
-	sctTime   uint64
+	entries  []refEntry // honest get-entries range [3,4]: one x509 entry, one precert entry
+	leafHash [][]byte   // the 7 leaves of the honest tree
+	treeRoot [32]byte
+	consist  [][]byte // consistency 3 -> 7
+	audit    [][]byte // inclusion of leaf 2 in 7
+	roots    [][]byte
+	sthTime  uint64
+	sctTime  uint64
 }
 
 // defang is the TBSCertificate an RFC 6962 s3.2 log signs for a precertificate:
@@ -222,7 +222,9 @@ func newWorld() *world {
 	w := &world{sthTime: 1700000000123, sctTime: 1700000001456}
 	w.root = stable(func() *pki.Cert { return pki.NewRoot("c12-root", pki.LoadKey("p256-1")) })
 	w.ca = stable(func() *pki.Cert { return pki.NewCA("c12-ca", pki.LoadKey("p256-2"), w.root, pki.CAOpts{}) })
-	w.preIssuer = stable(func() *pki.Cert { return pki.NewCA("c12-preissuer", pki.LoadKey("p256-4"), w.ca, pki.CAOpts{EKUs: [][]int{pki.OIDEKUCT}}) })
+	w.preIssuer = stable(func() *pki.Cert {
+		return pki.NewCA("c12-preissuer", pki.LoadKey("p256-4"), w.ca, pki.CAOpts{EKUs: [][]int{pki.OIDEKUCT}})
+	})
 	caHash := w.ca.T.Key.KeyHash()
 	rootHash := w.root.T.Key.KeyHash()
 	piHash := w.preIssuer.T.Key.KeyHash()
@@ -332,7 +334,9 @@ func dsEnc(hash, sig uint8, s []byte) []byte {
 	return must(ct6962.AppendDigitallySigned(nil, ct6962.DigitallySigned{Hash: hash, Sig: sig, Signature: s}))
 }
 
-func honestDS(k *pki.Key, h uint8, msg []byte) []byte { return dsEnc(h, sigAlgOf(k), signRaw(k, h, msg)) }
+func honestDS(k *pki.Key, h uint8, msg []byte) []byte {
+	return dsEnc(h, sigAlgOf(k), signRaw(k, h, msg))
+}
 
 func sigModes() []sigMode {
 	ms := []sigMode{
